@@ -197,6 +197,10 @@ def _need(stats, keys):
 
 
 TABLES = {   # name -> (module, replay script, description of the enumerated space)
+    "bounds": ("Bounds", "harness/replay_bounds.py",
+               "Bounds.tla table (every lattice case of clip / reflect / toroidal) replayed on apply_bounds and, for the toroidal "
+               "method, through GaussianMutation with forced noise (operator created with a small strength that is raised "
+               "afterwards): the repaired genome and every point handed to the objective must lie in the box"),
     "nbc": ("NBC", "harness/replay_nbc.py",
             "NBC.tla tables: every population of 2..MaxN distinct points of a 1-D lattice with ranks 0..2 (ties), factors "
             "{1,3/2,2,3}, truncations {1/2,3/4,1}; 2-D grid populations with distinct ranks (threshold decided by integer "
@@ -270,7 +274,8 @@ def _corpus_prop(pid, need, with_model=True, extra_assume=(), tables=(), minimiz
 
 
 _corpus_prop("C01", ["objective_calls", "generations_recorded", "rounds_with_sprouts", "engine:LOCAL", "engine:CMA",
-                     "engine:DE", "engine:SHADE", "engine:SEA", "engine:LHS", "engine:SOBOL"], with_model=False, minimize=True)
+                     "engine:DE", "engine:SHADE", "engine:SEA", "engine:LHS", "engine:SOBOL"], with_model=False, minimize=True,
+             tables=("bounds",))
 _corpus_prop("C02", ["generations_recorded", "engine:LOCAL", "engine:CMA", "engine:DE", "snapshots_after_refusal"],
              with_model=False, minimize=True)
 _corpus_prop("C03", ["ev:gsc", "engine:LOCAL", "gsc:SingularEvalLimit", "gsc:WeightedEvalLimit"], minimize=True)
